@@ -27,8 +27,8 @@ BANNERS = {'openssh': ['SSH-2.0-OpenSSH_7.4', 'SSH-2.0-OpenSSH_9.6', 'SSH-2.0-Op
 SEQ = [(512, 1024, 1536)] + [(b, b, b) for b in (512, 768, 1024, 1536, 2048, 3072, 4096)] + [(2048, 3072, 4096)]
 SMALL = 'using small %d-bit modulus'
 W2048 = '2048-bit modulus only provides 112-bits of symmetric strength'
-NCASES = {'quick': 500, 'thorough': 3000}
-NFAULTY = {'quick': 250, 'thorough': 4000}
+NCASES = {'quick': 1500, 'thorough': 3000}
+NFAULTY = {'quick': 600, 'thorough': 4000}
 
 
 def mk(subset, style, algs, bclass, rng, hostkey_via_gex=False):
